@@ -37,7 +37,11 @@ Macros == <<
   <<Cmd0(33)>>,                                                \* 15 unlink
   <<Cmd0(31)>>,                                                \* 16 swap
   <<Cmd0(15), Alt, Cmd0(3), Alt, Cmd0(21), EndTry>>,           \* 17 try-each [[image-match], [fetch]]
-  <<Cmd0(1)>>                                                  \* 18 condition vendor-identifier (never set: refused)
+  <<Cmd0(1)>>,                                                 \* 18 condition vendor-identifier (never set: refused)
+  <<Cmd0(32), E(20, <<>>, <<3>>, -1, 0, -1, -1, -1), Cmd0(3)>>,   \* 19 run-sequence [override {digest of content 0}, image-match]
+  <<[ev |-> "Seq"]>>,                                          \* 20 the next command sequence begins (validate -> install)
+  <<E(12, <<0, 1>>, <<>>, -1, -1, -1, -1, -1)>>,               \* 21 set-component-index [0, 1]
+  <<E(12, <<>>, <<>>, -1, -1, -1, -1, -1)>>                    \* 22 set-component-index false (nothing selected)
 >>
 
 VARIABLES prog, p, verdict, at, n
@@ -48,9 +52,10 @@ RECURSIVE Run(_, _, _)
 Run(q, evs, k) ==
   IF k > Len(evs) THEN [p |-> q, verdict |-> "ok", k |-> k - 1]
   ELSE LET e == evs[k]
-           j == IF e.ev = "Cmd" THEN CmdJudge(Hdr, q, e) ELSE AltJudge(q) IN
+           j == IF e.ev = "Cmd" THEN CmdJudge(Hdr, q, e) ELSE IF e.ev = "Seq" THEN "ok" ELSE AltJudge(q) IN
        IF j # "ok" THEN [p |-> q, verdict |-> j, k |-> k]
-       ELSE Run(IF e.ev = "Cmd" THEN CmdEffect(Hdr, q, e) ELSE IF e.ev = "Alt" THEN AltEffect(Hdr, q) ELSE EndTryEffect(Hdr, q),
+       ELSE Run(IF e.ev = "Cmd" THEN CmdEffect(Hdr, q, e) ELSE IF e.ev = "Seq" THEN InitDev(Hdr)
+                ELSE IF e.ev = "Alt" THEN AltEffect(Hdr, q) ELSE EndTryEffect(Hdr, q),
                 evs, k + 1)
 
 Init == prog = <<>> /\ p = InitDev(Hdr) /\ verdict = "ok" /\ at = 0 /\ n = 0
@@ -60,8 +65,10 @@ Add(m) == LET r == Run(p, Macros[m], 1) IN
           /\ verdict' = r.verdict
           /\ at' = IF r.verdict = "ok" THEN 0 ELSE n + r.k
           /\ n' = n + r.k
+\* the program is split over two command sequences at most (validate, then install)
+Allowed == {m \in 1..Len(Macros) : m = 20 => 20 \notin Rng(prog)}
 Next == /\ verdict = "ok" /\ Len(prog) < MAXLEN
-        /\ IF SIM THEN Add(RandomElement(1..Len(Macros))) ELSE \E m \in 1..Len(Macros) : Add(m)
+        /\ IF SIM THEN Add(RandomElement(Allowed)) ELSE \E m \in Allowed : Add(m)
 Spec == Init /\ [][Next]_vars
 
 \* ---- design properties of the processor model ---------------------------------------------------------------
@@ -79,7 +86,14 @@ AcceptedMatchMeansNamedContent ==
 AlternativesLeaveOnlyCommonKnowledge ==
   (prog # <<>> /\ Last(prog) = 13 /\ verdict = "ok" /\ p.c.selok) => \A i \in p.c.sel : 3 \in p.c.set[i] /\ p.c.dg[i] = -1
 \* a condition is never accepted on a component that lacks the parameter it reads
-NothingReadBeforeSet == (prog # <<>> /\ Last(prog) = 18) => verdict = "ParameterSetBeforeUse" \/ verdict = "IndexDeclared"
+\* (with NOTHING selected the condition tests no component and passes vacuously - found by TLC when macro 22 was added)
+NothingReadBeforeSet == (prog # <<>> /\ Last(prog) = 18) => verdict = "ParameterSetBeforeUse" \/ verdict = "IndexDeclared" \/ p.c.sel = {}
+
+\* a new command sequence starts from the initial processor state: nothing set, nothing held
+NewSequenceForgets == (prog # <<>> /\ Last(prog) = 20) => p = InitDev(Hdr)
+\* with nothing selected, set / override change nothing
+EmptySelectionChangesNothing == [][(prog' # prog /\ Len(prog) > 0 /\ Last(prog) = 22 /\ Last(prog') \in {4, 5, 6, 9, 11} /\ verdict' = "ok")
+                                    => p'.c.set = p.c.set]_vars
 
 Emit == EMIT => PrintT("SCN " \o ToJson([prog |-> prog, verdict |-> verdict, at |-> at,
                                          content |-> [i \in 1..Hdr.ncomp |-> p.c.content[i - 1]],
